@@ -122,7 +122,7 @@ def partitions(tier):
 
 MUST_REACH = ["format_wipe", "format_no_wipe", "rsv_inside_message", "rsv_beyond_data_area",
               "rsv_at_end_of_data_area", "rsv_before_ndef_tlv"]
-BOUNDS = {"quick": "T1/T2 structured layouts of C01, message lengths from boundary sets, format with/without a symbolic wipe byte; all other memory symbolic",
+BOUNDS = {"quick": "the Type 1/2 structured layouts of C01 (incl. the 296-byte Type 1 layouts with 257/258 bytes left and 216 guard bytes behind the declared area), Type 3 (four triples, emulation too) and Type 4 (6 guard bytes behind the declared file) worlds; message lengths from boundary sets up to capacity+8; format with/without a symbolic wipe byte; all other memory symbolic",
           "thorough": "as quick with every length for 48-byte areas and larger data areas"}
 OUTSIDE = ["layouts with more than one lock- and one memory-control TLV", "Topaz/Topaz-512 format() on layouts other than the vendor's standard layout (it re-creates that layout by design)", "format(wipe) with a wipe value below 0x80 (value ranges of old and new contents are separated to avoid 2^pages forks)"]
 ASSUMPTIONS = ["NDEF message area := bytes from the NDEF TLV's length byte to the end of the data area minus reserved ranges, computed by the harness from the layout it generated"]
